@@ -13,14 +13,16 @@ import (
 )
 
 func NewForVerif(address, controlAddress string, ios types.IOs) *Remote {
+	// the channels are created by the expressions of Factory.Create itself (tools/gen -> zz_verif_chans.go)
+	cc, mc := verifChans()
 	return &Remote{
 		IOs:         ios,
 		Name:        address,
 		replicaURL:  fmt.Sprintf("http://%s/v1/replicas/1", controlAddress),
 		pingURL:     fmt.Sprintf("http://%s/ping", controlAddress),
 		httpClient:  &http.Client{Timeout: timeout},
-		closeChan:   make(chan struct{}, 5),
-		monitorChan: make(types.MonitorChannel, 5),
+		closeChan:   cc,
+		monitorChan: mc,
 	}
 }
 
